@@ -65,6 +65,7 @@ fn make_ctx(p: &PropDef, tier: &str, shard: u64, shards: u64) -> Ctx {
 		replay_dir: verif_root().join("replays"),
 		report: RefCell::new(ShardReport::default()),
 		case_no: Cell::new(0),
+		out_path: RefCell::new(None),
 	}
 }
 
@@ -74,12 +75,10 @@ fn shard(id: &str, tier: &str, i: u64, k: u64, out: &Path) -> i32 {
 		None => return 2,
 	};
 	let ctx = make_ctx(&p, tier, i, k);
+	*ctx.out_path.borrow_mut() = Some(out.to_path_buf());
 	(p.run)(&ctx);
 	let _ = std::fs::remove_dir_all(&ctx.scratch);
-	let rep = ctx.report.into_inner();
-	let fps: Vec<u8> = rep.fps.iter().flat_map(|f| f.to_le_bytes()).collect();
-	std::fs::write(out.with_extension("fps"), fps).expect("write fps");
-	std::fs::write(out, serde_json::to_vec(&rep).unwrap()).expect("write shard report");
+	ctx.write_report();
 	0
 }
 
